@@ -934,7 +934,20 @@ func _panic(n *node) {
 	value := genValue(n.child[1])
 
 	n.exec = func(f *frame) bltn {
-		panic(value(f))
+		// Raise the panic with the value itself, not with the reflect.Value holding
+		// it, so that recover() and interp.Panic.Value yield the original value.
+		v := value(f)
+		for v.IsValid() {
+			vi, ok := v.Interface().(valueInterface)
+			if !ok {
+				break
+			}
+			v = vi.value
+		}
+		if !v.IsValid() || !v.CanInterface() {
+			panic(v)
+		}
+		panic(v.Interface())
 	}
 }
 
